@@ -58,7 +58,7 @@ Cmds(op, a, dl, db) ==
     [] op = "fuse_read"                -> << P(23, 0, <<a[1], a[2], Mem(a[3])>>) >>
     [] op = "update_life_cycle"        -> << P(24, 0, <<a[1]>>) >>
     [] op = "load_image"               -> << >>                                                     \* data packets only
-    [] op \in {"get_property_list", "get_property_list_after_family_parse"} -> << >>              \* read-only queries only
+    [] op \in {"get_property_list", "get_property_list_after_family_parse", "get_memory_list"} -> << >>   \* read-only queries only
 \* a read-only query the host may put in front of a data phase (negotiated packet size): it changes nothing on the device
 IsQuery(c) == c.tag = 7
 IsPrefix(s, t) == Len(s) <= Len(t) /\ \A i \in 1..Len(s) : s[i] = t[i]
